@@ -8,7 +8,7 @@ CLAIMS = {
   "text": "Decides the structural clauses of C06 for all paths/inputs: only the counted helper touches the sink and only via write_all; "
           "every sink write is dominated by `finalized=true` behind the finalized test (nothing before finish, nothing after, once); frame-writing "
           "entries succeed only on the flag-false edge; the byte counter is updated only beside the write with len(buf); MuxerStats fields are "
-          "sourced from the right queues/counter and only on the Ok edge. Static rules give the for-all-histories part tests cannot; numeric tolerance of duration is not decided.",
+          "sourced from the right queues/counter and only on the Ok edge. Static rules give the for-all-histories part tests cannot; numeric tolerance of duration is not decided. R6: the end time of a queue whose presentation times are not monotone in queue order ranges over every sample; each queue is paired with the last-delta field its own writer maintains.",
   "note": "Trusted: rustc MIR, std Write::write_all contract, externals classification. Not decided: +-1 tick tolerance of duration_secs; "
           "R6 (end time = last sample's pts+delta is the maximum only when pts is monotone) is recorded as a known finding when it applies."},
  "C13": {
@@ -28,18 +28,18 @@ CLAIMS = {
   "technique": "interprocedural error-path purity (store inventory x CFG reachability to Err/`?` exits) on MIR",
   "text": "Sufficient structural condition for C05, decided for all histories, rejection reasons and states: in every fallible function that receives muxer state by &mut on the frame-writing paths "
           "(progressive and fragmented, incl. the encode_* convenience forms) no store to that state lies on any CFG path ending in an Err/`?` exit; a failing call therefore executes no state store. "
-          "Three genuine defects found by this rule on the pinned tree were repaired (fix: commits, known_findings.json).",
+          "Three genuine defects found by this rule on the pinned tree were repaired (fix: commits, known_findings.json). Stores that precede a directly returned (delegated) fallible call count as stores before an error exit.",
   "note": "Path-insensitive (plain CFG reachability; stores of a fallible callee are placed on its Continue edge). State = memory reachable from the &mut receiver; the thread-local invariant log is excluded because C17.R2 shows muxing never reads it."},
  "C10": {
   "technique": "store inventory + dominance + guard extraction on MIR (fragmented muxer), layout interpretation for the segment builder",
   "text": "Decides the conservation argument structurally for every write/flush/query interleaving: the only mutations of the sample queue are push (write) and mem::take (flush) and the builder gets exactly the taken vector; the None exit of flush is store-free; "
-          "the sequence counter starts at 1, is incremented once after the builder call which receives the pre-increment value; the only rejection is guarded by dts < last_dts and is store-free; readiness queries are &self and pure.",
+          "the sequence counter starts at 1, is incremented once after the builder call which receives the pre-increment value; the only rejection is guarded by dts < last_dts and is store-free; readiness queries are &self and pure. R8: no field of a queued or taken fragment sample is stored to after the push.",
   "note": "Relies on std contracts of mem::take and Vec::push. R4/R5 (data_offset and same-samples-same-order in trun/mdat) are layout rules."},
  "C19": {
   "technique": "layout interpretation of typed HIR (symbolic byte productions of all box builders) compared with specification transcriptions",
   "text": "Derives, from the type-checked source, the byte layout of every box/record emitted in every configuration (if/match kept as alternatives, loops as repetitions) and compares it field by field with transcriptions of ISO/IEC 14496-12/-14/-15 and the AV1/VP9/Opus bindings: "
           "size, version/flags, reserved bits, constants, field positions, source of each value field, counted tables, length-prefixed parameter sets, descriptor lengths, track IDs vs next_track_ID. Symbolic, hence for all dimensions/rates/parameter sets. "
-          "Found 9 genuine layout defects on the pinned tree: 2 repaired, 7 recorded (pinned by the golden fixture or not small).",
+          "Found 9 genuine layout defects on the pinned tree: 2 repaired, 7 recorded (pinned by the golden fixture or not small). Also: hvcC profile byte identity, AAC samplingFrequencyIndex table, av1C flag bits (shared with C07.R7/R8).",
   "note": "Trusted: my transcription of the specifications (lib/mx/spec.py) and the interpreter. Value-level packing (language code, profile bytes) is not decided."},
  "C01": {
   "technique": "layout interpretation of typed HIR: symbolic file productions of both finalize functions (offset lists, schedule permutation, tables, moov) + MIR monotone-field analysis",
@@ -50,7 +50,7 @@ CLAIMS = {
  "C02": {
   "technique": "layout interpretation: derived box tree of every emitted stream vs containment/cardinality schema; symbolic width identities",
   "text": "For every configuration at once: the box constructor writes size == 8+len(payload) == its width; every container payload is child boxes only (so sizes tile recursively for every input); each alternative of each container "
-          "matches a schema transcribed from ISO/IEC 14496-12 (mandatory boxes once, optional at most once, no strangers, one-of groups); top-level order/cardinality of progressive file, init segment (mvex/trex) and media segment; count fields == entries emitted; mdat size == 8 + payloads.",
+          "matches a schema transcribed from ISO/IEC 14496-12 (mandatory boxes once, optional at most once, no strangers, one-of groups); top-level order/cardinality of progressive file, init segment (mvex/trex) and media segment; count fields == entries emitted; mdat size == 8 + payloads. Cross-table: the sample-to-chunk table gets an entry only on paths where chunk count and samples-per-chunk are entailed non-zero.",
   "note": "32-bit size overflow is C16. Trusted: schema transcription, interpreter."},
  "C08": {
   "technique": "symbolic width identities and production equality on the file productions; MIR data flow of the fast_start flag",
@@ -64,7 +64,7 @@ CLAIMS = {
  "C03": {
   "technique": "data-dependence slices on MIR + symbolic moov production (durations / composition offsets)",
   "text": "Decides the shape behind the timing property for all timestamp sequences: every tick handed to the inner writer is cast(round(own timestamp parameter * 90000)) with no state in its slice (no drift by construction); the duration back-patch is this-minus-previous of the writer's monotone timestamp, stored to the last sample and the last-delta field; "
-          "the final sample's fall-back is the track's own last delta; mdhd duration is the sum over the list behind stts; composition offsets are pts-dts and ctts is conditional on the fold of `offset != 0` over exactly those offsets.",
+          "the final sample's fall-back is the track's own last delta; mdhd duration is the sum over the list behind stts; composition offsets are pts-dts and ctts is conditional on the fold of `offset != 0` over exactly those offsets. R6: the stts/ctts run-length encoders extend a run only under exact equality with the current element and otherwise push (1, element).",
   "note": "Not decided: arithmetic of the run-length encoders and f64 rounding for particular cadences (value-level)."},
  "C04": {
   "technique": "guard extraction (dominating switch edges + operand-role slices) on MIR; total-match error map via HIR interpretation; typestate dominance",
@@ -74,11 +74,11 @@ CLAIMS = {
  "C07": {
   "technique": "layout interpretation (stsd selection, records) + HIR evaluation of writer/builder functions + MIR guard extraction for parameter-set slots",
   "text": "Sample-entry type is selected by the config variant, the variant is built from the configured codec by the matching extractor, fall-backs and the fragmented selection chain are checked per codec; every parameter-set slot receives the iterated NAL unit itself, only while empty and only for the spec's NAL type constant (7/8, 32/33/34); "
-          "audio entry fields and the AudioSpecificConfig/dOps derive from the one audio configuration; av1C/vpcC field bytes are values of the parsed configuration. Two genuine defects recorded (zero-frame non-H.264 fall-back to avc1; constant fragmented av1C fields).",
+          "audio entry fields and the AudioSpecificConfig/dOps derive from the one audio configuration; av1C/vpcC field bytes are values of the parsed configuration. Two genuine defects recorded (zero-frame non-H.264 fall-back to avc1; constant fragmented av1C fields). R7-R9: hvcC profile/tier/level bytes are the identity function of the SPS bytes they summarise (all 256 values of the extracted builder+accessor expression); AAC samplingFrequencyIndex match table == ISO/IEC 14496-3 table 1.18; av1C flag bits per configuration field; the AV1 sequence-header parser's read program (transcribed from typed HIR) reads the same bit widths in the same order and yields the same configuration values as a transcription of AV1 spec 5.5.1-5.5.5 on every enumerated syntax path (about 2700 paths).",
   "note": "Not decided: bit-level correctness of the AV1 sequence-header and VP9 header parsers (value-level). Shares the record-layout instances with C19."},
  "C09": {
   "technique": "layout interpretation: enumeration of the audio trak production for a track-start offset mechanism",
-  "text": "Necessary condition only: a track timeline built from stts starts at 0, so preserving an A/V start offset needs an edit list (or a field depending on both first timestamps) in the audio trak. The rule enumerates the audio trak production of every A/V layout; on the pinned tree no mechanism exists: a genuine defect, recorded as a known finding (not small to repair).",
+  "text": "Necessary condition only: a track timeline built from stts starts at 0, so preserving an A/V start offset needs an edit list (or a field depending on both first timestamps) in the audio trak. The rule enumerates the audio trak production of every A/V layout; on the pinned tree no mechanism exists: a genuine defect, recorded as a known finding (not small to repair). R2: no drift - run-length tables merge only exactly equal deltas (shared with C03.R6).",
   "note": "Decides that the property cannot hold in general while the mechanism is absent; when one appears, presence and data dependence are checked, not its +-1 tick arithmetic (value-level)."},
  "C12": {
   "technique": "whole-library panic/termination obligation inventory on MIR (overflow checks on) discharged by dominating-guard entailment (Fourier-Motzkin over guards, asserts, loop-header invariants, caller-established parameter facts, callee postconditions), finite-domain evaluation of extracted expressions, and named lemmas with machine-checked side conditions",
@@ -100,19 +100,19 @@ CLAIMS = {
  "C11": {
   "technique": "layout interpretation of the media-segment and init-segment builders + MIR slices in flush_segment",
   "text": "trun per-sample fields have the required operator shape (duration = next.dts - this.dts, cts = pts - dts signed, flags constants with the non-sync bit exactly on the non-sync arm, size = len(data)); tfdt/trun are version 1; the base decode time handed to the builder depends on the segment's own samples (defect found and repaired: it was estimated from the previous segment); "
-          "the init segment is built from the construct-time config only, the config has no writer after construction, and the cache is consulted first.",
+          "the init segment is built from the construct-time config only, the config has no writer after construction, and the cache is consulted first. R5: queued samples are immutable between write and segment building (flags/times written are the submitted ones).",
   "note": "Not decided: numeric monotonicity of base times and the 3000-tick default of a lone sample."},
  "C14": {
   "technique": "layout interpretation of the converters + exhaustive evaluation of the *extracted* ADTS bit-field formulas + MIR guard extraction",
-  "text": "Both Annex-B converters have exactly the production rep(iter(data)){skip empty | be32(len(nal)) ++ nal} ++ whole-input fall-back, are identical to each other, and the iterator yields sub-slices of its input; the ADTS validator returns frame[h..L] where the extracted expressions for h and L are decided equal to the spec formulas over all values of the bytes they read, under the guards h <= L <= len(frame).",
+  "text": "Both Annex-B converters have exactly the production rep(iter(data)){skip empty | be32(len(nal)) ++ nal} ++ whole-input fall-back, are identical to each other, and the iterator yields sub-slices of its input; the ADTS validator returns frame[h..L] where the extracted expressions for h and L are decided equal to the spec formulas over all values of the bytes they read, under the guards h <= L <= len(frame). R4: the start-code scanner steps by 1 from `from`, reports (i,3)/(i,4) only under the exact byte patterns, and returns None only when i + 3 > len is entailed (or the input trivially has no room).",
   "note": "Not decided: that the start-code scanner finds exactly the spec's 3/4-byte start codes in every byte string (a for-all over strings with overlapping patterns; value-level)."},
  "C18": {
   "technique": "layout interpretation: user-data production vs iTunes metadata layout; non-interference of the metadata parameter over the whole moov production",
-  "text": "udta is emitted iff the item list is non-empty and has the layout udta>meta(0)>hdlr(mdir)+ilst>items with data(type 1, locale 0) followed by the title's bytes verbatim; the `metadata` parameter occurs nowhere in the moov production except under udta and in the mdhd language field; both mdhd language fields derive from metadata.language with the `und` default.",
+  "text": "udta is emitted iff the item list is non-empty and has the layout udta>meta(0)>hdlr(mdir)+ilst>items with data(type 1, locale 0) followed by the title's bytes verbatim; the `metadata` parameter occurs nowhere in the moov production except under udta and in the mdhd language field; both mdhd language fields derive from metadata.language with the `und` default. R4: the (year, month, day) expressions extracted from the creation-date conversion equal the proleptic Gregorian calendar on every day of 400-year eras (exhaustive evaluation of the extracted expressions; year affine in the era). R5: single-attribute metadata setters update in place; only with_metadata(Metadata) replaces.",
   "note": "Not decided: the calendar conversion and the 5-bit language packing as arithmetic functions; termination for huge creation times is C12."},
  "C20": {
   "technique": "MIR rules on the bin crate: single-consumer flow of the output File, argument slices, dominance by the Ok edge of finish, store inventory of the verdict flag, loop-variant guard extraction",
   "text": "The File created for the output path is consumed only by MuxerBuilder::new and nothing else in the mux command writes files; every builder/muxer argument is sourced from the matching CLI option (documented default codecs), one frame at t=0 with key=true; both completion messages are dominated by the Ok edge of finish() and all library Results are propagated, main returns the Result; "
-          "the validate verdict is initialised true, only stored false, and stored false on every error branch, the hex validator rejects under {empty, odd, non-hex}; the info box walk advances by a size guarded non-zero and is bounded by the buffer length.",
+          "the validate verdict is initialised true, only stored false, and stored false on every error branch, the hex validator rejects under {empty, odd, non-hex}; the info box walk advances by a size guarded non-zero and is bounded by the buffer length. main hands every parsed option to the command parameter of the same name; no builder call replaces a configuration field wholesale after another call configured it; on the mux path no Result is discarded through .ok()/unwrap_or*/err().",
   "note": "Not decided: byte equality of the CLI output with an in-process library run; clap's own parsing."},
 }
